@@ -14,7 +14,13 @@
 //!     non-legacy, afterwards only edit / generate / deliver): the number of rounds until both
 //!     `generate_sync_message` return None is at most the bound proved in
 //!     `lean/AmVerif/Props/C20Progress.lean` (`C20_progress`: missing + 4, for every false-positive
-//!     oracle), else `! C20 sig=round-bound-exceeded`.
+//!     oracle), else `! C20 sig=round-bound-exceeded`; the same with drops (messages in flight lost)
+//!     and reconnects with fresh / persisted states in between (`Reachable21`, `C21_progress` of
+//!     `Props/C21Progress.lean`), reported as `! C21 sig=round-bound-exceeded`;
+//!   * `q` step in a pure session of 3 or more peers without forced false positives: the CONJECTURED
+//!     bound 4·(Σ_p |U \ arrived_p| + 1) (`! C21 sig=net-round-bound-exceeded`, validation only — the
+//!     n-peer theorem that is proved, `C21_component_converged_partial`, is what the
+//!     `quiescent-not-converged` oracle evaluates).
 use super::{hx, unhx};
 use crate::{exec_line, rng::Rng, Out, Session};
 use automerge::sync::{self, Capability, Message, MessageFlags, MessageVersion, State, SyncDoc};
@@ -207,6 +213,12 @@ pub struct World {
     /// then only edit / generate / deliver
     pure: bool,
     connected: bool,
+    /// a drop / reconnect / persisted state occurred: the session is one of C21 (`Reachable21`)
+    had_reconnect: bool,
+    /// some edit was marked as a forced Bloom false positive
+    any_fp: bool,
+    /// Σ_p |U \ arrived_p| before the last pure n-peer quiesce (statistics)
+    pub last_net_lack: Option<u64>,
     pub last_rounds: u64,
     /// `missing + 4` of the last pure quiesce (statistics)
     pub last_bound: Option<u64>,
@@ -246,8 +258,11 @@ impl World {
             universe: BTreeMap::new(),
             was_ro: BTreeSet::new(),
             faults: false,
-            pure: n == 2,
+            pure: true,
             connected: false,
+            had_reconnect: false,
+            any_fp: false,
+            last_net_lack: None,
             last_rounds: 0,
             last_bound: None,
             _guard: guard,
@@ -352,8 +367,21 @@ impl World {
 
     fn quiesce(&mut self, bound: u64, res: &mut Vec<String>) {
         // the proved round bound of C20 (`C20_progress`), taken before the first round
-        let c20_bound = if self.pure && self.connected && self.n == 2 { Some(self.missing_pair(0, 1) + 4) } else { None };
+        let c20_bound = if self.pure && self.connected && self.n == 2 && self.up.contains(&(0, 1)) { Some(self.missing_pair(0, 1) + 4) } else { None };
         self.last_bound = c20_bound;
+        // n >= 3 peers, pure session (edits / merges before the first connection, then only edits,
+        // generates, deliveries, drops and fresh / persisted reconnects): there is no PROVED round bound
+        // (the n-peer progress half of C21 is open, see Props/C21Progress.lean); the bound that would follow
+        // from the missing pair lemma (PairW) is 4·(lack + 1) rounds, lack = Σ_p |U \ arrived_p|.  It is
+        // checked as a conjecture, and only without forced false positives (the forced hook defeats the
+        // reset message: `C21_forced_fp_defeats_reset`).
+        let net_lack = if self.pure && self.connected && self.n >= 3 {
+            let arrived: Vec<HashSet<ChangeHash>> = (0..self.n).map(|p| self.arrived(p)).collect();
+            let mut u: HashSet<ChangeHash> = HashSet::new();
+            for p in 0..self.n { u.extend(self.docs[p].get_changes(&[]).iter().map(|c| c.hash())); }
+            Some((0..self.n).map(|p| u.iter().filter(|h| !arrived[p].contains(h)).count() as u64).sum::<u64>())
+        } else { None };
+        self.last_net_lack = net_lack;
         let mut rounds = 0u64;
         let mut quiet = false;
         while rounds < bound {
@@ -378,7 +406,14 @@ impl World {
         if let Some(bd) = c20_bound {
             // the loop counts the quiet round itself: quiescent after k rounds <=> quiet detected in round k+1
             if (!quiet && rounds > bd) || (quiet && rounds > bd + 1) {
-                res.push(format!("! C20 sig=round-bound-exceeded rounds={} quiet={} proved-bound={} (missing+4, C20_progress)", rounds, b01(quiet), bd));
+                let (prop, thm) = if self.had_reconnect { ("C21", "C21_progress") } else { ("C20", "C20_progress") };
+                res.push(format!("! {} sig=round-bound-exceeded rounds={} quiet={} proved-bound={} (missing+4, {})", prop, rounds, b01(quiet), bd, thm));
+            }
+        }
+        if let Some(lack) = net_lack {
+            let nb = 4 * (lack + 1);
+            if !self.any_fp && ((!quiet && rounds > nb) || (quiet && rounds > nb + 1)) {
+                res.push(format!("! C21 sig=net-round-bound-exceeded rounds={} quiet={} conjectured-bound={} (4*(lack+1), lack={}; validation of the open n-peer progress statement, not a proved bound)", rounds, b01(quiet), nb, lack));
             }
         }
         if !quiet {
@@ -419,11 +454,18 @@ impl World {
         let num = |x: &str| x.parse::<usize>().expect("peer");
         match f[0] {
             "e" | "q" | "b" => {}
-            "g" | "d" => { if !self.connected { self.pure = false; } }
+            // generate / deliver only on a link that is up
+            "g" | "d" => { if !self.connected || !self.up.contains(&(num(f[1]), num(f[2]))) { self.pure = false; } }
             "m" => { if self.connected { self.pure = false; } }
+            // drop with whatever is in flight: the `Step21.reconnect` of the model happens at the next `c`
+            "x" => { self.had_reconnect = true; }
             "c" => {
-                if self.connected || f[3] != "f" || f[4] != "f" || f[5] != "0"
-                    || self.docs.iter().any(|d| !d.get_missing_deps(&[]).is_empty()) { self.pure = false; }
+                // fresh or persisted on either side, non-legacy (`Reconn` of `Model/Sync2.lean`); the first
+                // connection additionally needs documents without queued orphans (`Initial`)
+                let ok_mode = |m: &str| m == "f" || m == "p";
+                if !ok_mode(f[3]) || !ok_mode(f[4]) || f[5] != "0" { self.pure = false; }
+                if !self.connected && self.docs.iter().any(|d| !d.get_missing_deps(&[]).is_empty()) { self.pure = false; }
+                if self.connected || f[3] == "p" || f[4] == "p" { self.had_reconnect = true; }
                 self.connected = true;
             }
             _ => { self.pure = false; }
@@ -432,7 +474,7 @@ impl World {
             "e" => {
                 let p = num(f[1]);
                 let want = parse_hash(f[5]);
-                if f[4] == "1" { FPSET.with(|s| s.borrow_mut().insert(want)); }
+                if f[4] == "1" { FPSET.with(|s| s.borrow_mut().insert(want)); self.any_fp = true; }
                 match self.do_edit(p, f[2], f[3]) {
                     Some((h, deps)) => {
                         let mut want_deps: Vec<ChangeHash> = if f[6] == "-" { vec![] } else { f[6].split(',').map(parse_hash).collect() };
@@ -535,7 +577,9 @@ pub fn exec(sess: &mut SyncSession, toks: &[&str]) -> Vec<String> {
 fn generate_pure(r: &mut Rng, sess: &mut Session, out: &mut Out) {
     let fp_pct = *r.pick(&[0u64, 5, 50, 100]);
     let main_steps = r.range(0, 60);
-    out.count("cases_pure_c20");
+    // half of the pure sessions have drops (with messages in flight) and reconnects (C21)
+    let with_faults = r.chance(1, 2);
+    out.count(if with_faults { "cases_pure_c21" } else { "cases_pure_c20" });
     out.count(&format!("pure_fp_pct_{}", fp_pct));
     let mut steps: Vec<String> = vec![];
     {
@@ -568,9 +612,30 @@ fn generate_pure(r: &mut Rng, sess: &mut Session, out: &mut Out) {
             if r.chance(5, 6) { edit!(r.below(2) as usize); }
             else { let a = r.below(2) as usize; out.count("steps_merge"); push!(format!("m:{}:{}", a, 1 - a)); }
         }
-        push!("c:0:1:f:f:0".to_string());
+        let mode = |r: &mut Rng| -> &'static str { if r.chance(1, 2) { "p" } else { "f" } };
+        if with_faults { let (ma, mb) = (mode(r), mode(r)); push!(format!("c:0:1:{}:{}:0", ma, mb)); }
+        else { push!("c:0:1:f:f:0".to_string()); }
         for _ in 0..main_steps {
             let (a, b) = if r.chance(1, 2) { (0usize, 1usize) } else { (1, 0) };
+            let is_up = w.up.contains(&(0, 1));
+            if with_faults {
+                if !is_up {
+                    // while the link is down: edits, or come back
+                    if r.chance(2, 5) {
+                        let (ma, mb) = (mode(r), mode(r));
+                        out.count("steps_reconnect");
+                        if ma == "p" || mb == "p" { out.count("steps_reconnect_persisted"); }
+                        push!(format!("c:0:1:{}:{}:0", ma, mb));
+                    } else { edit!(a); }
+                    continue;
+                }
+                if r.chance(7, 100) {
+                    out.count("steps_drop");
+                    if !w.link[&(0, 1)].is_empty() || !w.link[&(1, 0)].is_empty() { out.count("steps_drop_with_inflight"); }
+                    push!("x:0:1".to_string());
+                    continue;
+                }
+            }
             match r.below(100) {
                 0..=17 => { edit!(a); }
                 18..=54 => { out.count("steps_generate"); push!(format!("g:{}:{}", a, b)); }
@@ -580,6 +645,12 @@ fn generate_pure(r: &mut Rng, sess: &mut Session, out: &mut Out) {
                     else { out.count("steps_generate"); push!(format!("g:{}:{}", a, b)); }
                 }
             }
+        }
+        if !w.up.contains(&(0, 1)) {
+            let (ma, mb) = (mode(r), mode(r));
+            out.count("steps_reconnect");
+            if ma == "p" || mb == "p" { out.count("steps_reconnect_persisted"); }
+            push!(format!("c:0:1:{}:{}:0", ma, mb));
         }
         push!("b:0:1".to_string());
         let bound = 2 * hashes.len() as u64 + 16;
@@ -599,12 +670,110 @@ fn generate_pure(r: &mut Rng, sess: &mut Session, out: &mut Out) {
     exec_line(sess, &format!("sync.run 2 {}", steps.join(";")), out);
 }
 
+/// A PURE n-peer session (3 or 4 peers, the steps of `NetStep` in `Proofs/SyncProgress21Net.lean`):
+/// histories with shared ancestors, a connected topology, edits / generates / deliveries / drops with
+/// messages in flight / fresh or persisted reconnects, then heal and quiesce.
+fn generate_pure_net(r: &mut Rng, sess: &mut Session, out: &mut Out) {
+    let n = if r.chance(3, 5) { 3usize } else { 4 };
+    let fp_pct = *r.pick(&[0u64, 0, 5, 50]);
+    let main_steps = r.range(5, 80);
+    out.count("cases_pure_net");
+    out.count(&format!("net_peers_{}", n));
+    out.count(&format!("net_fp_pct_{}", fp_pct));
+    let mut steps: Vec<String> = vec![];
+    {
+        let mut w = World::new(n);
+        let mut hashes: Vec<ChangeHash> = vec![];
+        macro_rules! push { ($s:expr) => {{ let s: String = $s; let o = w.step(&s); steps.push(s); o }}; }
+        macro_rules! edit { ($p:expr) => {{
+            let p: usize = $p;
+            let key = format!("k{}", r.below(4));
+            let present = w.docs[p].get(ROOT, key.as_str()).ok().flatten().is_some();
+            let val = if present && r.chance(1, 6) { "del".to_string() } else { r.below(1000).to_string() };
+            let saved = w.docs[p].clone();
+            if let Some((h, deps)) = w.do_edit(p, &key, &val) {
+                w.docs[p] = saved;
+                w.universe.remove(&h);
+                let isfp = r.below(100) < fp_pct;
+                let deps_s = if deps.is_empty() { "-".to_string() } else { deps.iter().map(|d| hex::encode(d.as_ref())).collect::<Vec<_>>().join(",") };
+                hashes.push(h);
+                out.count("steps_edit");
+                push!(format!("e:{}:{}:{}:{}:{}:{}", p, key, val, b01(isfp), hex::encode(h.as_ref()), deps_s));
+            } else { w.docs[p] = saved; }
+        }}; }
+        if r.chance(2, 3) {
+            for _ in 0..r.below(6) { edit!(0); }
+            for p in 1..n { if r.chance(3, 4) { push!(format!("m:{}:0", p)); } }
+        }
+        let hist = if r.chance(1, 4) { r.range(15, 40) } else { r.below(16) };
+        for _ in 0..hist {
+            if r.chance(5, 6) { edit!(r.below(n as u64) as usize); }
+            else {
+                let a = r.below(n as u64) as usize; let b = (a + 1 + r.below(n as u64 - 1) as usize) % n;
+                out.count("steps_merge");
+                push!(format!("m:{}:{}", a, b));
+            }
+        }
+        let mut edges: Vec<(usize, usize)> = vec![];
+        for b in 1..n { let a = r.below(b as u64) as usize; edges.push((a, b)); }
+        for a in 0..n { for b in (a + 1)..n { if !edges.contains(&(a, b)) && r.chance(1, 3) { edges.push((a, b)); } } }
+        let mode = |r: &mut Rng| -> &'static str { if r.chance(1, 2) { "p" } else { "f" } };
+        for &(a, b) in &edges { let (ma, mb) = (mode(r), mode(r)); push!(format!("c:{}:{}:{}:{}:0", a, b, ma, mb)); }
+        for _ in 0..main_steps {
+            let &(ea, eb) = r.pick(&edges);
+            let (a, b) = if r.chance(1, 2) { (ea, eb) } else { (eb, ea) };
+            let is_up = w.up.contains(&(a, b));
+            match r.below(100) {
+                0..=15 => { edit!(r.below(n as u64) as usize); }
+                16..=49 => { if is_up { out.count("steps_generate"); push!(format!("g:{}:{}", a, b)); } }
+                50..=87 => {
+                    let busy: Vec<(usize, usize)> = w.link.iter().filter(|(_, q)| !q.is_empty()).map(|(k, _)| *k).collect();
+                    if !busy.is_empty() { let &(x, y) = r.pick(&busy); out.count("steps_deliver"); push!(format!("d:{}:{}", x, y)); }
+                    else if is_up { out.count("steps_generate"); push!(format!("g:{}:{}", a, b)); }
+                }
+                88..=92 => { if is_up { out.count("steps_drop"); if !w.link[&(a, b)].is_empty() || !w.link[&(b, a)].is_empty() { out.count("steps_drop_with_inflight"); } push!(format!("x:{}:{}", a, b)); } }
+                _ => {
+                    if !is_up {
+                        let (ma, mb) = (mode(r), mode(r));
+                        out.count("steps_reconnect");
+                        if ma == "p" || mb == "p" { out.count("steps_reconnect_persisted"); }
+                        push!(format!("c:{}:{}:{}:{}:0", ea, eb, ma, mb));
+                    }
+                }
+            }
+        }
+        for &(a, b) in &edges {
+            if !w.up.contains(&(a, b)) {
+                let (ma, mb) = (mode(r), mode(r));
+                out.count("steps_reconnect");
+                if ma == "p" || mb == "p" { out.count("steps_reconnect_persisted"); }
+                push!(format!("c:{}:{}:{}:{}:0", a, b, ma, mb));
+            }
+        }
+        let bound = 2 * hashes.len() as u64 * (n as u64 - 1) + 6 * n as u64 + 4;
+        push!(format!("q:{}", bound));
+        out.add("net_quiesce_rounds_total", w.last_rounds);
+        let cur = out.stats.get("net_quiesce_rounds_max").copied().unwrap_or(0);
+        if w.last_rounds > cur { out.stats.insert("net_quiesce_rounds_max".into(), w.last_rounds); }
+        if let Some(lack) = w.last_net_lack {
+            out.add("net_lack_total", lack);
+            // how far the run stayed below lack + 4 (+1 for the quiet round); saturating
+            let slack = (lack + 5).saturating_sub(w.last_rounds);
+            let cur = out.stats.get("net_lack_plus4_slack_min").copied().unwrap_or(u64::MAX);
+            if slack < cur { out.stats.insert("net_lack_plus4_slack_min".into(), slack); }
+        } else { out.count("net_cases_lost_purity"); }
+        out.add("changes_total", hashes.len() as u64);
+    }
+    exec_line(sess, &format!("sync.run {} {}", n, steps.join(";")), out);
+}
+
 /// Build a schedule by driving a scratch `World`, then route the finished line through `exec_line`.
 pub fn generate(r: &mut Rng, opts: &BTreeMap<String, String>, sess: &mut Session, out: &mut Out) {
     // every fourth case is a pure C20 session (decided by the case index, so the other cases of a
     // seed are exactly what they were before this generator existed)
     let idx = out.stats.get("sync_cases").copied().unwrap_or(0);
     out.count("sync_cases");
+    if idx % 8 == 7 { return generate_pure_net(r, sess, out); }
     if idx % 4 == 3 { return generate_pure(r, sess, out); }
     let n = match r.below(10) { 0..=4 => 2usize, 5..=7 => 3, _ => 4 };
     let fp_pct = *r.pick(&[0u64, 5, 50]);
